@@ -601,6 +601,11 @@ pub fn compile_on_schedule(project: Project, cfg: &Config, threads: usize, yield
                         // The Sierra of single functions of the project, in a seeded order (later
                         // ones first as often as not): interning happens in another order.
                         verif::count("c12.prefix.function_level", 1);
+                        // Single functions can only be asked for in an error-free project (the
+                        // compiler's own entry points check the diagnostics first).
+                        if comp::diagnostics(&db, &inputs).1 {
+                            continue;
+                        }
                         if let Ok(mut fns) = cairo_lang_sierra_generator::program_generator::find_all_free_function_ids(&db, ids.clone()) {
                             verif::count("c12.prefix.functions_listed", fns.len() as u64);
                             for i in (1..fns.len()).rev() {
